@@ -393,7 +393,28 @@ def r2_recursion(ctx):
     allowed = [["melvm::opcode::opcodes_car_weight", "melvm::opcode::opcodes_weight"]]
     other = [n for n in names if n not in allowed and not all("serde" in x or "Deserialize" in x or "Serialize" in x for x in n)]
     r.check(not other, "cycles", "no recursion besides the weight function", "new recursion cycle(s): %s" % other)
-    r.check(allowed[0] in names, "weight-cycle", "the weight recursion is present (bounded by slice length, see C11.R6)", "the weight recursion changed shape: %s" % names)
+    r.check(allowed[0] in names, "weight-cycle", "the weight recursion is present (it terminates: the body handed down is a proper sub-slice, see C11.R6)", "the weight recursion changed shape: %s" % names)
+    # Terminating is not enough for 'never a crash': the recursion goes one level down per Loop whose body holds the next Loop, so its DEPTH is bounded only by the
+    # number of instructions of the covenant — which the sender chooses (a transaction has no size limit here).  A stack overflow is not a panic, the process aborts.
+    # Necessary: the recursive functions carry a depth / budget (an integer parameter that the recursive call changes and a comparison stops on), or there is no recursion.
+    if allowed[0] in names:
+        fns = [prog.body(n) for n in allowed[0]]
+        intparams = []
+        for b in fns:
+            if b is None:
+                continue
+            for i, pt in enumerate(mir.param_types(b) or []):
+                if re.fullmatch(r"(u|i)(8|16|32|64|128|size)", pt.replace("&", "").replace("mut ", "").strip()):
+                    intparams.append((b.nname.split("::")[-1], "$%d: %s" % (i + 1, pt)))
+        if not intparams:
+            b0 = prog.body("melvm::opcode::opcodes_car_weight")
+            r.violation("weight-cycle/depth-unbounded", "opcodes_weight ↔ opcodes_car_weight recurse once per nested Loop and carry no depth bound (their only parameter is the "
+                        "instruction slice): n consecutive `Loop(0, 0xffff)` (5n bytes) recurse n deep while being weighed — at n = 3000 the thread stack overflows and the "
+                        "validator aborts, before any fee is looked at", "%s:%s" % (b0.file, b0.line) if b0 is not None else None)
+        else:
+            r.undecided("weight-cycle/depth-unbounded", "the weight recursion carries integer parameter(s) %s: whether they bound the depth is not decided" % intparams[:3])
+    else:
+        r.ok("weight-cycle/depth-unbounded", "the weight is not computed by recursion")
 
 
 LOOP_TABLE = {
